@@ -381,7 +381,7 @@ func runC08(c *an.Ctx) {
 				i := e.From.Instrs[len(e.From.Instrs)-1]
 				c.Add(an.Guarded(sp, i, an.EdgesImplying(sp, typ(nodeT))), "R2", sn+":node-arm:type", i, "the name test runs in the node-filter arm", "edge dominance")
 				ok := an.Guarded(sp, i, an.EdgesWhere(sp, func(f an.Cmp) bool {
-					return strings.HasPrefix(f.L, "decodeMessage(") && strings.HasSuffix(f.L, ",&local:nodes)") && f.Op == "==" && f.R == "c:nil"
+					return strings.HasPrefix(f.L, "decodeMessage(") && strings.HasSuffix(f.L, ",&local:filterNode)") && f.Op == "==" && f.R == "c:nil"
 				}))
 				c.Add(ok, "R2", sn+":node-arm:decoded", i, "the name test runs only after the node list decoded without error", "edge dominance")
 			}
@@ -389,7 +389,7 @@ func runC08(c *an.Ctx) {
 				i := e.From.Instrs[len(e.From.Instrs)-1]
 				c.Add(an.Guarded(sp, i, an.EdgesImplying(sp, typ(tagT))), "R2", sn+":tag-arm:type", i, "the pattern test runs in the tag-filter arm", "edge dominance")
 				okD := an.Guarded(sp, i, an.EdgesWhere(sp, func(f an.Cmp) bool {
-					return strings.HasPrefix(f.L, "decodeMessage(") && strings.HasSuffix(f.L, ",&local:filt)") && f.Op == "==" && f.R == "c:nil"
+					return strings.HasPrefix(f.L, "decodeMessage(") && strings.HasSuffix(f.L, ",&local:filterTag)") && f.Op == "==" && f.R == "c:nil"
 				}))
 				c.Add(okD, "R2", sn+":tag-arm:decoded", i, "the pattern test runs only after the tag filter decoded without error", "edge dominance")
 				okE := an.Guarded(sp, i, an.EdgesWhere(sp, func(f an.Cmp) bool {
@@ -399,7 +399,7 @@ func runC08(c *an.Ctx) {
 			}
 			for _, call := range an.CallsTo(sp, "regexp.MatchString") {
 				a := an.CallOf(call).Args
-				c.Add(an.Path(a[0]) == "local:filt.Expr" && an.Path(a[1]) == "$0.config.Tags[local:filt.Tag]", "R2", sn+":tag-arm:operands", call, "the pattern is matched against tags[filter.Tag] (missing tag ⇒ empty string); got ("+an.Path(a[0])+", "+an.Path(a[1])+")", "access paths")
+				c.Add(an.Path(a[0]) == "local:filterTag.Expr" && an.Path(a[1]) == "$0.config.Tags[local:filterTag.Tag]", "R2", sn+":tag-arm:operands", call, "the pattern is matched against tags[filter.Tag] (missing tag ⇒ empty string); got ("+an.Path(a[0])+", "+an.Path(a[1])+")", "access paths")
 			}
 			c.Floor("R2", "regexp.MatchString calls", len(an.CallsTo(sp, "regexp.MatchString")), 1)
 		}
